@@ -1,9 +1,10 @@
 """C01 - compiled clauses compute exactly Prolog's answers, in order."""
-from lib import semcheck, progs
+from lib import semcheck, progs, progs_r4
 from lib.semcheck import impl, model_expr, compare, oracle, describe, shrink, IMPORTS
 
 ID = 'C01'
-THEOREMS = ['C01_compile_program_total', 'C01_compiled_program_computes_reference', 'C01_compiled_program_is_sld', 'C01_source_text_is_sld', 'C01_front_good', 'C01_naming_equals_renaming_apart', 'C01_body_code_correct', 'C01_fresh_head_variable', 'C01_activations_use_fresh_cells', 'C01_distinct_variables_distinct_cells', 'C01_anon_numbered', 'C01_anon_name_injective', 'C01_anon_name_not_a_source_variable', 'C01_call_never_cuts']
+THEOREMS = ['C01_compile_program_total', 'C01_compiled_program_computes_reference', 'C01_compiled_program_is_sld', 'C01_source_text_is_sld', 'C01_front_good', 'C01_naming_equals_renaming_apart', 'C01_body_code_correct', 'C01_fresh_head_variable', 'C01_activations_use_fresh_cells', 'C01_distinct_variables_distinct_cells', 'C01_anon_numbered', 'C01_anon_name_injective', 'C01_anon_name_not_a_source_variable', 'C01_call_never_cuts',
+            'C01_numeral_value_any_spelling', 'C01_numeral_eq_any_spelling', 'C01_numeral_neq_any_spelling']
 CASE_TIMEOUT = 60
 MODEL_NEEDS_IMPL = True
 COQ_CHUNK = 20
@@ -46,6 +47,14 @@ def gen(rng, tier):
         # "every `_` is a distinct variable": clauses full of `_` next to named variables with adversarial names
         p = progs.gen_anon_program(rng)
         cases.append({'clauses': p['clauses'], 'queries': p['queries'], 'anon': True})
+    # round 4: numerals in every spelling the grammar allows (leading zeros, 0, 00, large) wherever a term may stand, and = / \\= goals
+    # between two constants / two ground terms (same value in two spellings, different values, atom against numeral, compound terms)
+    for _ in range(n // 4):
+        o = progs.Opts(open_leaves=0.0, control=False, cut=False, builtins=False, numerals=rng.choice([0.15, 0.3, 0.5]), constcmp=rng.choice([0.1, 0.25, 0.4]))
+        p = progs.gen_program(rng, o)
+        cases.append({'clauses': p['clauses'], 'queries': p['queries'], 'shape': 'numerals'})
+    for _ in range(n // 5):
+        cases.append(progs_r4.gen_const_program(rng))
     return cases
 
 def builtin_corpus():
@@ -80,6 +89,13 @@ def builtin_corpus():
     prog([['e', [V('X'), A('plain')], call('d', V('X'), V('_'))], ['e', [F('f', V('X')), A('nested')], call('d', V('X'), V('_'))],
           ['e', [V('X'), V('X')], ['true']], ['e', [V('X'), A('again')], call('d', V('_'), V('X'))], ['e', [V('Y'), A('other')], call('d', V('X'), V('Y'))]] + d,
          [['e', [V('Q0'), V('Q1')]], ['e', [A('b'), V('Q0')]], ['e', [V('Q0'), A('again')]], ['e', [F('f', V('Q0')), V('Q1')]]])
+    # round 4: comparisons of constants (a numeral denotes its value however it is spelled)
+    num = lambda s: ['num', s]
+    prog([['cmp', [A('eq')], call('=', num('01'), num('1'))], ['cmp', [A('neq')], call('\\=', num('01'), num('1'))],
+          ['cmp', [A('atoms')], call('=', A('a'), A('a'))], ['cmp', [A('mixed')], call('\\=', A('a'), num('0'))],
+          ['cmp', [A('deep')], call('=', F('f', num('000'), ['list', [num('10')]]), F('f', num('0'), ['list', [num('0010')]]))],
+          ['n', [num('0042')], ['true']], ['n', [num('42')], ['true']]],
+         [['cmp', [V('Q0')]], ['n', [V('Q0')]], ['n', [num('042')]]])
     return L
 
 def nontrivial(case, io):
